@@ -4,7 +4,8 @@
 # only if that bug, or one like it, returns).
 cd /verif
 CAND=/verif/work/corpus_candidates.tsv; mkdir -p work; : > $CAND
-for d in seeded/C*-*; do
+# optional arguments: the seed directories to (re)process (default: all)
+for d in ${@:-seeded/C*-*}; do
   s=$(basename $d); pid=${s%-*}
   cd /repo; git status --short | grep -q . && { echo "/repo not clean"; exit 3; }
   git apply /verif/$d/patch.diff || continue
